@@ -4,6 +4,7 @@ import (
 	"fmt"
 	"os"
 	"testing"
+	"time"
 )
 
 // DumpRows returns all rows of the index (tombstones included) in a stable form.
@@ -98,4 +99,25 @@ func TestDebugModel(t *testing.T) {
 	}
 	tr, m := ref.Tree()
 	fmt.Println(tr, m)
+}
+
+func TestDebugForeign(t *testing.T) {
+	if os.Getenv("VERIF_FOREIGN") == "" {
+		t.Skip()
+	}
+	for _, style := range []string{"dot", "abs", "top"} {
+		c := &Case{Prop: "C17", Seed: 3, Cfg: PlainConfig(20)}
+		RunSeq(t, c, NewStats(), Relax{}, seqOpts{NoOpen: true}, func(x *SeqCtx) *Violation {
+			ms := []member{{Path: "", Dir: true, Mode: 0o755}, {Path: "d", Dir: true, Mode: 0o755}, {Path: "d/f", Data: &Data{Len: 10, Kind: "text", Tag: 1}, Mode: 0o644}, {Path: "g", Data: &Data{Len: 5, Kind: "text", Tag: 2}, Mode: 0o644}}
+			b, _ := writeForeignTar(ms, 4, style, time.Unix(1500000000, 0))
+			os.WriteFile(x.W.Drive, b, 0o600)
+			st, err := x.W.Open(OpenOpts{})
+			fmt.Printf("style=%s root=%q err=%v\n", style, st.Root, err)
+			for _, r := range DumpRows(st) {
+				fmt.Println("   ", r)
+			}
+			st.Close()
+			return nil
+		})
+	}
 }
